@@ -3,6 +3,12 @@
 
 namespace yaclib {
 
+#if defined(YACLIB_VERIF) && YACLIB_FAULT == 2
+namespace detail {
+VerifSyncHook gVerifSyncHook = nullptr;
+}  // namespace detail
+#endif
+
 detail::Injector* GetInjector() noexcept {
   static detail::Injector instance;
   return &instance;
